@@ -34,6 +34,8 @@ pub enum Op {
     Upload { file: u16, #[serde(default)] spell: u8 },
     Initiate { file: u16, #[serde(default)] spell: u8 },
     FormPath { file: u16, #[serde(default)] spell: u8 },
+    /// GET / HEAD of a tree file with a Range header (single, several, several with one that cannot be honoured, malformed); `big` prefers the largest file
+    Ranged { file: u16, spec: u8, big: bool },
     Mutant(Bytes),
 }
 
@@ -96,6 +98,18 @@ fn render(tree: &Tree, op: &Op) -> Vec<u8> {
             let mut v = format!("{} {} HTTP/1.1\r\nHost: localhost\r\nContent-Length: {}\r\nContent-Type: application/octet-stream\r\n\r\n", m, t, b.len()).into_bytes();
             v.extend_from_slice(&b); v
         }
+        Op::Ranged { file, spec, big } => {
+            let url = if *big && !tree.files.is_empty() {
+                // the largest regular file of the tree
+                tree.files.iter().filter(|f| f.kind != "link-to-file").max_by_key(|f| std::fs::metadata(tree.abs(&f.url)).map(|m| m.len()).unwrap_or(0)).map(|f| f.url.clone()).unwrap_or_else(|| file_url(*file))
+            } else { file_url(*file) };
+            let len = std::fs::metadata(tree.abs(&url)).map(|m| m.len()).unwrap_or(0);
+            let range = match spec % 10 {
+                0 => "bytes=0-0".to_string(), 1 => "bytes=0-9, 20-29".to_string(), 2 => format!("bytes=0-9, {}-{}", len + 5, len + 9), 3 => format!("bytes=5-1, 0-{}", len.saturating_sub(1)),
+                4 => format!("bytes=0-{}, x-y", len / 2), 5 => "bytes=-5, 3-".to_string(), 6 => format!("bytes={}-", len), 7 => "items=0-1, 2-3".to_string(),
+                8 => format!("bytes=0-0,1-1,2-2,{}-{}", len, len + 1), _ => "bytes=1-2, 18446744073709551615-18446744073709551616".to_string() };
+            format!("{} {} HTTP/1.1\r\nHost: localhost\r\nRange: {}\r\n\r\n", if spec % 3 == 2 { "HEAD" } else { "GET" }, url, range).into_bytes()
+        }
         Op::Upload { file, spell } => {
             let name = named(*file, *spell);
             let body = format!("--XB\r\nContent-Disposition: form-data; name=\"file\"; filename=\"{}\"\r\nContent-Type: text/plain\r\n\r\nOVERWRITTEN BY UPLOAD\r\n--XB\r\nContent-Disposition: form-data; name=\"path\"\r\n\r\n{}\r\n--XB--\r\n", name, name);
@@ -111,6 +125,7 @@ fn op_strategy() -> impl Strategy<Value = Op> {
         6 => (0u8..9, any::<u16>(), 0u8..4).prop_map(|(method, target, body)| Op::Method { method, target, body }),
         1 => (any::<u16>(), 0u8..20).prop_map(|(file, spell)| Op::Upload { file, spell }),
         2 => (any::<u16>(), 0u8..20).prop_map(|(file, spell)| Op::Initiate { file, spell }),
+        2 => (any::<u16>(), 0u8..30, any::<bool>()).prop_map(|(file, spec, big)| Op::Ranged { file, spec, big }),
         1 => (any::<u16>(), 0u8..20).prop_map(|(file, spell)| Op::FormPath { file, spell }),
         2 => crate::fw::greq::case_strategy().prop_map(|c| Op::Mutant(Bytes(c.render(10000)))),
     ]
